@@ -34,7 +34,7 @@ impl Prop for C04 {
         "C04"
     }
     fn rule(&self) -> String {
-        "62 quantity spellings (base, derived, prefixed, powered, compound, imperial, one unit under several prefixes and powers, derived-per-base compounds, one prefix on two units of a compound under different powers); one unit under two prefixes and two powers on either side of * and / (7 prefixes x powers 1..3, squared); zero-valued quantities, written and computed, under ^n (n in -3..3), * and / ; all ordered pairs x {*, /} with the right operand bare and parenthesised; all triples over a 15-spelling core x {*,/}^2 x both groupings; (q)^n for every spelling and n in -3..3; every documented unit name with prefix none/k/m as (2 u)^n. Compared in SI normal form (value and base dimensions) with the reference evaluation of the tree; the displayed unit is never compared. Non-trivial = at least one operator applied to a quantity with a non-empty unit; distinct = distinct query strings".into()
+        "62 quantity spellings (base, derived, prefixed, powered, compound, imperial, one unit under several prefixes and powers, derived-per-base compounds, one prefix on two units of a compound under different powers); one unit under two prefixes and two powers on either side of * and / (7 prefixes x powers 1..3, squared); zero-valued quantities, written and computed, under ^n (n in -3..3), * and / ; a temperature on an offset scale as a factor or divisor next to 8 other quantities in both operand orders (the product of the operands' SI values with the degree read as an interval or as an absolute temperature, the result's degrees read as intervals; refusal not judged); all ordered pairs x {*, /} with the right operand bare and parenthesised; all triples over a 15-spelling core x {*,/}^2 x both groupings; (q)^n for every spelling and n in -3..3; every documented unit name with prefix none/k/m as (2 u)^n. Compared in SI normal form (value and base dimensions) with the reference evaluation of the tree; the displayed unit is never compared. Non-trivial = at least one operator applied to a quantity with a non-empty unit; distinct = distinct query strings".into()
     }
     fn assumptions(&self) -> Vec<String> {
         vec!["unit scales come from the independent table (tables.rs), documented meanings".into(), "offset scales (°C, °F) are C09's subject".into()]
@@ -129,6 +129,21 @@ impl Prop for C04 {
                 }
             }
         }
+        // a temperature on an offset scale as a factor: the product / quotient is the product of
+        // the operands' SI values with the degree read as an interval or as an absolute
+        // temperature - whichever the tool chooses, but the same arithmetic in both operand orders
+        // and never anything else (refusing is C09's business and is not judged here)
+        for s in ["°C", "°F", "celsius", "fahrenheit"] {
+            for x in ["10", "-40", "0.5"] {
+                for (y, u) in [("2", "m"), ("3", "N"), ("0.5", "s"), ("2", "km"), ("4", "kg*m/s^2"), ("3", "K"), ("5", "°F"), ("7", "°C")] {
+                    for op in ["*", "/"] {
+                        for (q, first) in [(format!("{x} {s} {op} {y} {u}"), true), (format!("{y} {u} {op} {x} {s}"), false)] {
+                            sink(Case::with("offset-product", q, serde_json::json!({"x": x, "s": s, "y": y, "u": u, "op": op, "scale_first": first})));
+                        }
+                    }
+                }
+            }
+        }
         for u in tables::UNITS {
             if u.affine != tables::Affine::None {
                 continue;
@@ -153,6 +168,9 @@ impl Prop for C04 {
         }
     }
     fn check(&self, env: &mut Env, case: &Case) -> Verdict {
+        if case.fam == "offset-product" {
+            return offset_product(env, case);
+        }
         let e = from_json(&case.data);
         if case.fam.starts_with("unit-") {
             // the statement constrains accepted unit words only: a prefixed
@@ -165,10 +183,8 @@ impl Prop for C04 {
                 }
             }
             if let Some(q) = first_qty(&e) {
-                if let Ok(crate::obs::Res::Err { msg, .. }) = crate::obs::eval_one(env.db(), &q) {
-                    if msg.contains("is not a valid unit") {
-                        return Verdict::DontCare("prefixed unit word rejected by the tool");
-                    }
+                if let Ok(crate::obs::Res::Err { .. }) = crate::obs::eval_one(env.db(), &q) {
+                    return Verdict::DontCare("prefixed unit word rejected by the tool");
                 }
             }
         }
@@ -177,4 +193,68 @@ impl Prop for C04 {
     fn bounds(&self, tier: Tier) -> serde_json::Value {
         serde_json::json!({"quantities": 62, "triple_core": tier.pick(12, quants().len()), "quadruple_core": tier.pick(0, 10), "powers": tier.pick("-3..3", "-6..6")})
     }
+}
+
+/// (interval value, absolute value) in kelvin of `x` degrees on the scale spelled `s`; a
+/// proportional unit has one reading.
+fn temperature_readings(x: &num::BigRational, s: &str) -> Option<(num::BigRational, num::BigRational)> {
+    let r = |n: i64, d: i64| num::BigRational::new(n.into(), d.into());
+    match s {
+        "°C" | "celsius" => Some((x.clone(), x + r(27315, 100))),
+        "°F" | "fahrenheit" => Some((x * r(5, 9), (x - r(32, 1)) * r(5, 9) + r(27315, 100))),
+        _ => None,
+    }
+}
+
+fn offset_product(env: &mut Env, case: &Case) -> Verdict {
+    let d = &case.data;
+    let (x, s, y, u, op, first) = (d["x"].as_str().unwrap(), d["s"].as_str().unwrap(), d["y"].as_str().unwrap(), d["u"].as_str().unwrap(), d["op"].as_str().unwrap(), d["scale_first"].as_bool().unwrap());
+    let xv = crate::refcalc::ref_decimal(x).unwrap();
+    let yv = crate::refcalc::ref_decimal(y).unwrap();
+    let kelvin = { let mut k = tables::DIM0; k[4] = 1; k };
+    // readings of the two operands: (SI value, dimensions)
+    let t = temperature_readings(&xv, s).unwrap();
+    let a: Vec<(num::BigRational, tables::Dim)> = vec![(t.0, kelvin), (t.1, kelvin)];
+    let b: Vec<(num::BigRational, tables::Dim)> = match temperature_readings(&yv, u) {
+        Some(t2) => vec![(t2.0, kelvin), (t2.1, kelvin)],
+        None => match crate::units::unit_expr(u) {
+            Some(m) => vec![(&yv * m.scale, m.dim)],
+            None => panic!("machinery: no reference reading of {u}"),
+        },
+    };
+    let got = match crate::obs::eval_one(env.db(), &case.key) {
+        Ok(crate::obs::Res::Ok { value, unit, .. }) => match crate::units::si_of(&value, &unit, true) {
+            Ok(si) => si,
+            Err(e) => return crate::fw::fail("unit-table", format!("{}: {e}", case.key)),
+        },
+        Ok(crate::obs::Res::Err { .. }) => return Verdict::DontCare("an offset scale as a factor is refused (C09 allows that)"),
+        Err(why) => return crate::fw::fail("results:offset-product", format!("{}: {why}", case.key)),
+    };
+    let sign = if op == "*" { 1 } else { -1 };
+    let mut wanted = Vec::new();
+    for (av, ad) in &a {
+        for (bv, bd) in &b {
+            let (l, ld, r, rd) = if first { (av, ad, bv, bd) } else { (bv, bd, av, ad) };
+            if sign == -1 && num::Zero::is_zero(r) {
+                continue;
+            }
+            let v = if sign == 1 { l * r } else { l / r };
+            let dim = tables::dim_add(ld, rd, sign);
+            wanted.push((v, dim));
+        }
+    }
+    if wanted.iter().any(|(v, dim)| *v == got.value && *dim == got.dim) {
+        return crate::fw::pass(true, crate::fw::hash_str(&got.short()));
+    }
+    crate::fw::fail(
+        format!("offset-product:{}{}", if first { "scale-first" } else { "scale-second" }, op),
+        format!(
+            "`{}` = {} [{}] (degrees of the result read as intervals); the product of the operands' SI values is {} with the degree as an interval or {} with it as an absolute temperature",
+            case.key,
+            got.value,
+            tables::dim_text(&got.dim),
+            wanted.first().map(|w| w.0.to_string()).unwrap_or_default(),
+            wanted.last().map(|w| w.0.to_string()).unwrap_or_default()
+        ),
+    )
 }
